@@ -67,8 +67,13 @@ RULE = ("worlds of 1..6 resources (.rtdc files and DCOR resources) with "
         "directly or as hierarchy child / grandchild; four orders of access; "
         "whole arrays read twice; world edits (basin files replaced at "
         "the same path by files of another measurement / other features, "
-        "then a fresh open in the same process). Oracle-only: missing basinmap feature, "
-        "internal basin without mapping, enable_basins=False. Non-trivial: "
+        "then a fresh open in the same process); mapping features stored "
+        "behind a sibling 'same' basin instead of in the referrer; empty "
+        "feature lists; the same definition under two keys; hierarchy "
+        "children with a real filter. Oracle-only: missing basinmap feature, "
+        "internal basin without mapping, enable_basins=False on every root "
+        "format. A run fails closed when fewer than 70 % of the cases or "
+        "fewer than FLOOR cases of a class were evaluated. Non-trivial: "
         "at least one basin is followed from the root; distinct = different "
         "case dict")
 TRUSTED_BASE = [
@@ -89,11 +94,16 @@ TRUSTED_BASE = [
 ASSUMPTIONS = [
     "correspondence cases use the type/format combinations listed in RULE; "
     "internal basins are mapped and declare their features, every mapped "
-    "basin's basinmap feature is stored in the referring file (the inputs "
-    "violating this are oracle-only cases)",
-    "the model follows the tree with the fixes 28899f0, 960b418 and 7dc3f69; "
-    "on a tree without them the check reports the violations (corpus 01-04, "
-    "14, 15)",
+    "basin's basinmap feature is stored in the referring file or in the "
+    "file behind a matching 'same' basin of the referrer that is retrieved "
+    "before it (the inputs violating this are oracle-only cases)",
+    "the exact features_basin set and the basin that serves a feature "
+    "(priority order, three passes) are compared with the model: a repair "
+    "of one of the two findings upstream changes them and must be followed "
+    "by the model (then the finding's _refuted theorem stops holding)",
+    "the model follows the tree with the fixes 28899f0, 960b418, 7dc3f69, "
+    "c5ad7bc and dad364d; on a tree without them the check reports the "
+    "violations (corpus 01-04, 14-17, 20, 21)",
 ]
 
 HEADER = ("From Coq Require Import ZArith List.\nImport ListNotations.\n"
@@ -558,10 +568,25 @@ def _alarm(signum, frame):
     raise CaseTimeout()
 
 
+def load_factor():
+    """how much longer than on a quiet machine things take right now"""
+    try:
+        return max(1.0, min(12.0, 1.5 * os.getloadavg()[0] / common.NCPU))
+    except OSError:
+        return 1.0
+
+
+def wall_limit(case):
+    """Wall-clock backstop of a case (waiting on sockets does not use CPU):
+    the CPU limit stretched by the load of the machine."""
+    return case_limit(case) * load_factor()
+
+
 def case_limit(case):
-    """wall-clock limit of a case: every access of a dataset with a mapped
-    basin whose basinmap feature is missing unwinds a RecursionError (about
-    1 s each, some 20 accesses per case)"""
+    """CPU-time limit of a case (the termination observation: a loop that
+    does not end burns CPU); every access of a dataset with a mapped basin
+    whose basinmap feature is missing unwinds a RecursionError (about 1 s
+    each, some 20 accesses per case)"""
     factor = float(os.environ.get("C14_LIMIT_FACTOR", "1"))
     return factor * TIME_LIMIT * (
         5 if case.get("exotic") == "no-basinmap" else 1)
@@ -598,7 +623,9 @@ def observe(case, base, port):
     # (every 0.5 s after the limit) until the exception gets through
     _W["timed_out"] = False
     signal.signal(signal.SIGALRM, _alarm)
-    signal.setitimer(signal.ITIMER_REAL, case_limit(case), 0.5)
+    signal.signal(signal.SIGPROF, _alarm)
+    signal.setitimer(signal.ITIMER_PROF, case_limit(case), 0.5)
+    signal.setitimer(signal.ITIMER_REAL, wall_limit(case), 0.5)
     ds = None
     parents = []
     try:
@@ -745,6 +772,7 @@ def observe(case, base, port):
         res["errcls"] = [c.__name__ for c in type(e).__mro__]
     finally:
         signal.setitimer(signal.ITIMER_REAL, 0)
+        signal.setitimer(signal.ITIMER_PROF, 0)
         if _W.get("timed_out"):
             res["status"] = 1
         h5py.File = orig_file
@@ -821,6 +849,9 @@ def observe_in_child(case, base, port):
         code = 0
         try:
             os.close(r)
+            import resource
+            lim = int(case_limit(case) * (2 if case.get("edit") else 1)) + 3
+            resource.setrlimit(resource.RLIMIT_CPU, (lim, lim + 2))
             res = observe_case(case, base, port)
             data = json.dumps(res).encode()
             while data:
@@ -832,7 +863,7 @@ def observe_in_child(case, base, port):
             os._exit(code)
     os.close(w)
     buf = b""
-    t_end = time.time() + case_limit(case) * (
+    t_end = time.time() + wall_limit(case) * (
         2 if case.get("edit") else 1) + 2.5
     alive = True
     try:
@@ -855,10 +886,15 @@ def observe_in_child(case, base, port):
                 os.kill(pid, signal.SIGKILL)
             except OSError:
                 pass
+        wstatus = 0
         try:
-            os.waitpid(pid, 0)
+            wstatus = os.waitpid(pid, 0)[1]
         except OSError:
             pass
+    if not alive and not buf and os.WIFSIGNALED(wstatus):
+        # stopped by the CPU limit
+        return dict(status=1, fb=[], contains=[], source=[], touched=[],
+                    followed=0, killed=True)
     if not alive and buf:
         try:
             return json.loads(buf.decode())
@@ -1163,8 +1199,8 @@ def oracle1(case, res):
     if case.get("exotic"):
         return oracle_exotic(case, res)
     if res["status"] == 1:
-        return ("opening/reading did not finish within %d s" % TIME_LIMIT,
-                None)
+        return ("opening/reading did not finish within %d s of CPU time (or "
+                "the load-scaled wall-clock backstop)" % TIME_LIMIT, None)
     if res["status"] == 2:
         return ("opening the root raised %s" % res.get("error"), None)
     root = case["root"]
@@ -1687,7 +1723,7 @@ def run_cases(scratch, cases, nproc=None, budget=None, max_timeouts=None):
                       initargs=(scratch, ports, tcount, max_timeouts)) as pool:
             asyncs = [pool.apply_async(_work, (ch,)) for ch in chunks]
             for ch, a in zip(chunks, asyncs):
-                limit = sum(case_limit(c) for c in ch) + 120
+                limit = sum(wall_limit(c) * 2 for c in ch) + 120
                 if t_end is not None:
                     limit = min(limit, max(0.05, t_end - time.time()))
                 try:
@@ -1773,7 +1809,7 @@ def case_classes(case):
 
 # classes that every run must have evaluated (quick, thorough)
 FLOOR = {"cycle>=3": (3, 50), "mapped-edge-in-cycle": (3, 50),
-         "root:http": (30, 300), "root:s3": (2, 20), "root:dcor": (5, 50),
+         "root:http": (30, 300), "root:s3": (1, 20), "root:dcor": (5, 50),
          "edit": (10, 100), "mapsrc": (3, 30), "hfilter": (5, 50),
          "exotic:no-basins": (1, 10), "exotic:internal-same": (1, 10),
          "empty-feature-list": (3, 30), "keyless-definition": (3, 30),
@@ -1781,8 +1817,9 @@ FLOOR = {"cycle>=3": (3, 50), "mapped-edge-in-cycle": (3, 50),
 
 
 def check_cases(run, cases, record=True):
+    stretch = min(4.0, load_factor())
     results = run_cases(run.scratch, cases,
-                        budget=900 if run.thorough else 200,
+                        budget=(900 if run.thorough else 200) * stretch,
                         max_timeouts=12 if run.thorough else 3)
     _dbg("stage 1 done")
     if os.environ.get("C14_TIMING"):
@@ -1816,7 +1853,7 @@ def check_cases(run, cases, record=True):
         if not real:
             order = sorted(skipped)
             redo = run_cases(run.scratch, [cases[k] for k in order],
-                             budget=600 if run.thorough else 150,
+                             budget=(600 if run.thorough else 150) * stretch,
                              max_timeouts=12 if run.thorough else 3)
             for k, r in zip(order, redo):
                 results[k] = r
